@@ -146,6 +146,11 @@ def run(ctx):
     for ln in uniq[:: max(1, len(uniq) // 3)][:3]:
         ctx.sample({k: ln[k] for k in ("what", "kind", "pc", "cls", "order", "nf", "ratio", "resid_milli", "finite", "note")})
     bad = ctx.tlc_validate_sharded("Trace_C03", "Trace.cfg", [{k: v for k, v in ln.items() if k != "note"} for ln in uniq])
+    ctx.selftest("Trace_C03", "Trace.cfg", [{k: v for k, v in ln.items() if k not in ('note',)} for ln in uniq if ln["oid"] not in bad and (not ln.get("empty"))], [
+        ("resid", lambda l: dict(l, resid_milli=3000)),
+        ("finite", lambda l: dict(l, finite=False)),
+        ("loc_missing", lambda l: dict(l, has_loc=False) if l["has_sing"] else None),
+        ("element", lambda l: dict(l, order=9) if l["what"] == "kernel" else None)])
     by = {ln["oid"]: ln for ln in uniq}
     for oid, clause in bad.items():
         ln = by[oid]
